@@ -67,6 +67,11 @@ SIG_F29 = ("C09:F29 LearnerND keeps outdated entries in _simplex_queue (sub-simp
            "tell_pending(each) does not, later asks differ")
 SIG_F28 = ("C09:F28 IntegratorLearner sums igral and err over a set of intervals: after the snapshot/restore of "
            "ask(tell_pending=False) the same intervals are summed in another order and loss() differs in the last bit")
+SIG_F30 = ("C09:F30 BalancingLearner.ask(tell_pending=False) over DataSaver children wipes the wrapped learners' pending points "
+           "(utils.restore deep-copies the wrapped learner through __getstate__)")
+SIG_F36 = ("C09:F36 BalancingLearner.ask(tell_pending=False) over BalancingLearner children does not roll the inner BalancingLearners "
+           "back (utils.restore deep-copies their list of learners through __getstate__: the grandchildren lose their pending points; "
+           "and their bound _ask_and_tell method: later asks run on a detached copy)")
 SIG_F17 = ("C09:F17 BalancingLearner.ask(tell_pending=False) resets AverageLearner1D children to default parameters "
            "(restore via __setstate__ re-runs __init__ without delta/alpha/min_samples/...)")
 
@@ -98,6 +103,35 @@ def all_specs(l2d_ok: bool, bal_int_ok: bool):
             specs.append({"kind": "Bal", "child": child_spec(k), "nchild": 2 + (i % 2), "strategy": st})
     for k in ["L1D", "LND", "Avg", "Avg1D", "Seq", "Int"] + (["L2D"] if l2d_ok else []):
         specs.append({"kind": "DS", "child": child_spec(k)})
+    return specs
+
+
+def nested_specs(l2d_ok: bool):
+    """Wrappers INSIDE wrappers: BalancingLearner over DataSaver[X] (every X a BalancingLearner can drive, all four
+    strategies), DataSaver[BalancingLearner[X]], BalancingLearner over BalancingLearners (the library only demands that the
+    children are of one class), and three levels.  A tentative ask of the outer learner must roll back the INNERMOST
+    learners too (C09:F30: utils.restore lost the pending points of a learner held by a DataSaver)."""
+    kinds = ["L1D", "LND", "Avg", "Avg1D", "Seq"] + (["L2D"] if l2d_ok else [])
+    st = G.STRATEGIES
+    specs = []
+    for k in kinds:
+        for i, s in enumerate(st):
+            specs.append({"kind": "Bal", "child": {"kind": "DS", "child": child_spec(k)}, "nchild": 2 + (i % 2), "strategy": s})
+    for i, k in enumerate(kinds):
+        specs.append({"kind": "DS", "child": {"kind": "Bal", "child": child_spec(k), "nchild": 2 + (i % 2), "strategy": st[i % 4]}})
+    for i in (1, 2, 3):
+        specs.append({"kind": "DS", "child": {"kind": "Bal", "child": child_spec("L1D"), "nchild": 2, "strategy": st[i]}})
+    for i, k in enumerate(kinds):
+        specs.append({"kind": "Bal", "child": {"kind": "Bal", "child": child_spec(k), "nchild": 2, "strategy": st[(i + 1) % 4]},
+                      "nchild": 2, "strategy": st[i % 4]})
+    specs.append({"kind": "Bal", "child": {"kind": "Bal", "child": child_spec("L1D"), "nchild": 2, "strategy": "cycle"},
+                  "nchild": 2, "strategy": "cycle"})
+    specs.append({"kind": "Bal", "child": {"kind": "DS", "child": {"kind": "Bal", "child": child_spec("L1D"), "nchild": 2, "strategy": "npoints"}},
+                  "nchild": 2, "strategy": "loss_improvements"})
+    specs.append({"kind": "Bal", "child": {"kind": "DS", "child": {"kind": "Bal", "child": child_spec("Avg"), "nchild": 2, "strategy": "cycle"}},
+                  "nchild": 2, "strategy": "loss"})
+    specs.append({"kind": "DS", "child": {"kind": "Bal", "child": {"kind": "DS", "child": child_spec("L1D")}, "nchild": 2, "strategy": "loss_improvements"}})
+    specs.append({"kind": "DS", "child": {"kind": "Bal", "child": {"kind": "DS", "child": child_spec("LND")}, "nchild": 2, "strategy": "npoints"}})
     return specs
 
 
@@ -154,12 +188,14 @@ def leaves(ad, l):
 
 def pre_state(ad, l):
     """What the detectors need to remember from before the non-committing ask."""
-    st = {"child_pending": None, "inflight": [], "params": None}
+    st = {"leaf_pending": None, "inflight": [], "params": None}
+    if G.has_bal(ad.spec):
+        # the pending points of every INNERMOST learner, read from that object (for a plain BalancingLearner: its children)
+        st["leaf_pending"] = [frozenset(a.pending(b)) for a, b in leaves(ad, l)]
+        if G.base_kind(ad.spec) == "Avg1D":
+            st["params"] = [avg1d_params(b) for a, b in leaves(ad, l)]
     if ad.spec["kind"] == "Bal":
-        st["child_pending"] = [frozenset(ad.child.pending(c)) for c in l.learners]
         st["child_fp"] = [G.fp_attrs(c) for c in l.learners]
-        if ad.child.spec["kind"] == "Avg1D":
-            st["params"] = [avg1d_params(c) for c in l.learners]
     st["l2d_stack"] = [G.canon(list(b._stack.items())) for a, b in leaves(ad, l) if a.spec["kind"] == "L2D"]
     st["l2d_pending_order"] = [list(b.pending_points) for a, b in leaves(ad, l) if a.spec["kind"] == "L2D"]
     st["under_order"] = [list(b._undersampled_points) for a, b in leaves(ad, l) if a.spec["kind"] == "Avg1D"]
@@ -175,15 +211,80 @@ def avg1d_params(c):
     return (c.delta, c.alpha, c.min_samples, c.max_samples, c.min_error, c.neighbor_sampling)
 
 
-def known_mechanism(ad, l, pre):
+def _leaf_marks(a, b):
+    return [(frozenset(x.pending(y)), avg1d_params(y) if x.spec["kind"] == "Avg1D" else None) for x, y in leaves(a, b)]
+
+
+def restore_alone_wipes(ad, H, path):
+    """Mechanism probe on a fresh twin: utils.restore around NOTHING, applied to the learner at `path`; do pending points of
+    an innermost learner below it vanish (or are its parameters reset)?"""
+    from adaptive.utils import restore
+    T = G.replay(ad, H)
+    a, b = {p: (x, y) for p, x, y in G.walk(ad, T)}[path]
+    before = _leaf_marks(a, b)
+    with restore(b):
+        pass
+    return any(x[0] - y[0] or x[1] != y[1] for x, y in zip(before, _leaf_marks(a, b)))
+
+
+def detached_bal_nodes(ad, l):
+    """Paths of the BalancingLearners whose strategy method (kept as a bound method in __dict__) is bound to ANOTHER
+    object than the learner itself: what a deep copy of the learner's __dict__ leaves behind."""
+    return [p for p, a, b in G.walk(ad, l)
+            if a.spec["kind"] == "Bal" and getattr(b.__dict__.get("_ask_and_tell"), "__self__", b) is not b]
+
+
+def nested_attribution(ad, X, msg):
+    """A failure on a NESTED configuration after a tentative ask of X: is an inner BalancingLearner left detached?"""
+    if G.wrapper_depth(ad.spec) < 2:
+        return None
+    det = detached_bal_nodes(ad, X)
+    if not det:
+        return None
+    return SIG_F36, (f"{msg}; after the tentative ask the inner BalancingLearner(s) at {[G.path_name(p) for p in det]} run their "
+                     f"strategy on a detached deep copy (the bound method _ask_and_tell was deep-copied by utils.restore)")
+
+
+def nested_loss_mechanism(ad, H, lost_paths):
+    """Innermost learners of a NESTED configuration lost pending points in a tentative ask: which learner on the way
+    down is the one that utils.restore (applied by the BalancingLearner above it) does not roll back -- the deepest one
+    whose restore alone loses the points.  A DataSaver: C09:F30.  A BalancingLearner: its list of learners (C09:F36)."""
+    kinds = {p: a.spec["kind"] for p, a, _ in G.walk(ad, G.replay(ad, []))}
+    for leaf in lost_paths:
+        for k in range(len(leaf) - 1, 0, -1):
+            path = leaf[:k]
+            try:
+                wipes = restore_alone_wipes(ad, H, path)
+            except Exception:  # noqa: BLE001
+                wipes = False
+            if wipes:
+                who = "DataSaver" if kinds[path] == "DS" else "BalancingLearner"
+                return (SIG_F30 if kinds[path] == "DS" else SIG_F36), f"utils.restore of the {who} at {G.path_name(path)} alone loses them"
+    return None
+
+
+def known_mechanism(ad, l, pre, H=None):
     """After ask(n, False): which listed defect, if any, visibly fired on this learner."""
-    if ad.spec["kind"] == "Bal":
-        now = [frozenset(ad.child.pending(c)) for c in l.learners]
-        lost = [(i, len(a - b)) for i, (a, b) in enumerate(zip(pre["child_pending"], now)) if a - b]
-        if lost:
+    if pre["leaf_pending"] is not None:
+        lv = leaves(ad, l)
+        now = [frozenset(a.pending(b)) for a, b in lv]
+        lost = [(i, len(a - b)) for i, (a, b) in enumerate(zip(pre["leaf_pending"], now)) if a - b]
+        if lost and G.wrapper_depth(ad.spec) < 2 and ad.spec["kind"] == "Bal":
             return SIG_F3, f"children lost pending points: {[f'child {i}: {k} lost' for i, k in lost]}"
+        if lost and H is not None:
+            paths = [p for p, a, _ in G.walk(ad, l) if a.spec["kind"] not in ("Bal", "DS")]
+            mech = nested_loss_mechanism(ad, H, [paths[i] for i, _ in lost])
+            if mech:
+                return mech[0], (f"innermost learners lost pending points: "
+                                 f"{[f'learner at {G.path_name(paths[i])}: {k} lost' for i, k in lost]} ({mech[1]})")
         if pre["params"] is not None:
-            nowp = [avg1d_params(c) for c in l.learners]
+            nowp = [avg1d_params(b) for a, b in lv]
+            if nowp != pre["params"] and H is not None and G.wrapper_depth(ad.spec) >= 2:
+                paths = [p for p, a, _ in G.walk(ad, l) if a.spec["kind"] not in ("Bal", "DS")]
+                mech = nested_loss_mechanism(ad, H, [paths[i] for i, (x, y) in enumerate(zip(pre["params"], nowp)) if x != y])
+                if mech:
+                    return mech[0], (f"innermost AverageLearner1D parameters (delta, alpha, min_samples, ...) reset "
+                                     f"{pre['params'][0]} -> {nowp[0]}: rebuilt through __setstate__ ({mech[1]})")
             if nowp != pre["params"]:
                 return SIG_F17, f"child parameters (delta, alpha, min_samples, max_samples, min_error, neighbor_sampling) {pre['params'][0]} -> {nowp[0]}"
     ints = [(a, b) for a, b in leaves(ad, l) if a.spec["kind"] == "Int"]
@@ -224,6 +325,23 @@ def restore_balancing_private(l, saved):
         l._cycle = itertools.cycle(range(len(l.learners)))
         for _ in range(pos):
             next(l._cycle)
+
+
+def bal_nodes(ad, l):
+    """Every BalancingLearner of the tree, outermost first."""
+    return [b for _, a, b in G.walk(ad, l) if a.spec["kind"] == "Bal"]
+
+
+def drop_loss_caches(ad, l):
+    for b in bal_nodes(ad, l):
+        b._loss, b._pending_loss = {}, {}
+
+
+def align_cycles(ad, C, D):
+    """Give every 'cycle' BalancingLearner of D the round-robin position of its counterpart in C."""
+    for c, d in zip(bal_nodes(ad, C), bal_nodes(ad, D)):
+        if getattr(c, "_strategy", None) == "cycle" and getattr(d, "_strategy", None) == "cycle":
+            restore_balancing_private(d, save_balancing_private(d)[:3] + (cycle_pos(c),))
 
 
 L1D_REBUILD_ATTRS = {"_scale", "_bbox", "_oldscale", "losses", "losses_combined", "neighbors", "neighbors_combined",
@@ -416,10 +534,8 @@ def commit_later_with_clean_queues(ad, H, n, seed):
         G.apply_op(ad, D, ["tell_pending", p])
     for l in (C, D):
         normalise_lnd_queues(ad, l)
-        if ad.spec["kind"] == "Bal":
-            l._loss, l._pending_loss = {}, {}
-    if ad.spec["kind"] == "Bal" and getattr(C, "_strategy", None) == "cycle":
-        restore_balancing_private(D, save_balancing_private(D)[:3] + (cycle_pos(C),))
+        drop_loss_caches(ad, l)
+    align_cycles(ad, C, D)
     rng = random.Random(seed + 13)
     return run_continuation(ad, C, D, rng, script_long(rng), "the other twin", imp_rel=1e-9)[0]
 
@@ -457,13 +573,13 @@ def probe_state(ad, H, n, seed, _counterfactual=False):
     pre = pre_state(ad, A)
     s0 = G.snapshot(ad, A)
     r1 = G.apply_op(ad, A, ["ask", n, False])
-    mech = known_mechanism(ad, A, pre)
+    mech = known_mechanism(ad, A, pre, H)
     if mech:
         return [(mech[0], f"{name} after {len(H)} ops, ask({n}, tell_pending=False): {mech[1]}")], True
     post_l2d_stack = [G.canon(list(b._stack.items())) for a, b in leaves(ad, A) if a.spec["kind"] == "L2D"]
     s1 = G.snapshot(ad, A)
     r2 = G.apply_op(ad, A, ["ask", n, False])
-    mech = known_mechanism(ad, A, pre)
+    mech = known_mechanism(ad, A, pre, H)
     if mech:
         return [(mech[0], f"{name} after {len(H)} ops, second ask({n}, tell_pending=False): {mech[1]}")], True
     s2 = G.snapshot(ad, A)
@@ -486,6 +602,10 @@ def probe_state(ad, H, n, seed, _counterfactual=False):
     msg_u = unobserved_experiment(ad, H, n, seed)
     if msg_u:
         generic.append(("later-unobserved", msg_u))
+    if generic:
+        na = nested_attribution(ad, A, f"{name} after {len(H)} ops: {generic[0][1]}")
+        if na:
+            return [na], True
     if generic and G.base_kind(ad.spec) == "L2D" and not _counterfactual:
         if post_l2d_stack != pre["l2d_stack"]:
             return [(SIG_F10, f"{name} after {len(H)} ops: {generic[0][1]}; the learner's _stack is not what it was before the call")], True
@@ -554,7 +674,7 @@ def probe_state(ad, H, n, seed, _counterfactual=False):
         if G.base_kind(ad.spec) == "L2D":
             # Learner2D interpolates over the pending points with qhull: the expected loss depends, in the last digits,
             # on the ORDER in which the same pending points were inserted -- compared to 1e-5 relative
-            d = [k for k in d if not (k in ("loss_exp", "fresh_exp", "child_exp") and _close(sc[k], sd[k]))]
+            d = [k for k in d if not (k.endswith(("loss_exp", "fresh_exp", "child_exp")) and _close(sc[k], sd[k]))]
         if bad is not None:
             fails.append((f"C09:{G.spec_name(_sig_spec(ad.spec))}:commit-state",
                           f"{name} after {len(H)} ops: tell_pending of a point returned by ask({n}, False) raised {G.short(bad)}"))
@@ -565,6 +685,9 @@ def probe_state(ad, H, n, seed, _counterfactual=False):
                 [G.canon(list(b._stack.items())) for a, b in leaves(ad, C)] != [G.canon(list(b._stack.items())) for a, b in leaves(ad, D)]:
             return [(SIG_F10, f"{name} after {len(H)} ops: after ask({n}, True) {d[0]} = {G.short(sc[d[0]])} but after ask({n}, False) + "
                               f"tell_pending(each) {G.short(sd[d[0]])}; the Learner2D stacks of the two twins differ")], True
+        elif d and nested_attribution(ad, D, ""):
+            return [nested_attribution(ad, D, f"{name} after {len(H)} ops: after ask({n}, True) {d[0]} = {G.short(sc[d[0]])} but after "
+                                              f"ask({n}, False) + tell_pending(each) {G.short(sd[d[0]])}")], True
         elif d:
             fails.append((f"C09:{G.spec_name(_sig_spec(ad.spec))}:commit-state",
                           f"{name} after {len(H)} ops: after ask({n}, True) {d[0]} = {G.short(sc[d[0]])} but after ask({n}, False) + "
@@ -573,19 +696,23 @@ def probe_state(ad, H, n, seed, _counterfactual=False):
             # (a LearnerND without a triangulation draws random points from a private RNG that ask(tell_pending=False)
             # rolls back and ask(tell_pending=True) advances -- the F24 mechanism; such states are left to C10:F24)
             # the two must also BEHAVE alike: further committing asks of size >= 4 while pending points accumulate
-            if is_bal:
+            if G.has_bal(ad.spec):
                 for l in (C, D):
-                    l._loss, l._pending_loss = {}, {}       # C09:F2 (stale loss caches) is decided by the comparison above
-                if getattr(C, "_strategy", None) == "cycle":
-                    # the round-robin position is advanced by ASKING, not by marking points pending: ask(n, True) moved it
-                    # n places, ask(n, False) + tell_pending(each) left it where it was (tell_pending of arbitrary points
-                    # cannot know about it).  Not bookkeeping in the sense of the property: the twins are aligned here.
-                    restore_balancing_private(D, save_balancing_private(D)[:3] + (cycle_pos(C),))
+                    drop_loss_caches(ad, l)                 # C09:F2 (stale loss caches) is decided by the comparison above
+                # the round-robin position is advanced by ASKING, not by marking points pending: ask(n, True) moved it
+                # n places, ask(n, False) + tell_pending(each) left it where it was (tell_pending of arbitrary points
+                # cannot know about it).  Not bookkeeping in the sense of the property: the twins are aligned here
+                # (every 'cycle' BalancingLearner of the tree, also the inner ones of nested configurations).
+                align_cycles(ad, C, D)
             rng = random.Random(seed + 13)
             # LearnerND: the sub-triangulations of the two twins hold the same simplices built in a different order; volumes
             # (hence loss improvements) may differ in the last bit -- points exact, improvements to 1e-9 relative
             tol = 1e-9 if G.base_kind(ad.spec) == "LND" else 0.0
             m, _ = run_continuation(ad, C, D, rng, script_long(rng), f"the twin that did ask({n}, False) + tell_pending(each)", imp_rel=tol)
+            if m:
+                na = nested_attribution(ad, D, f"{name} after {len(H)} ops, after ask({n}, True): {m}")
+                if na:
+                    return [na], True
             if m and is_bal:
                 known = attribute_commit_later(ad, H, n, seed, rd)
                 if known:
@@ -650,7 +777,7 @@ def _close(a, b, rel=1e-5):
 
 def _equal_without_loss_caches(ad, C, D):
     for l in (C, D):
-        l._loss, l._pending_loss = {}, {}
+        drop_loss_caches(ad, l)
     return not G.diff_snap(G.snapshot(ad, C), G.snapshot(ad, D))
 
 
@@ -658,9 +785,9 @@ def _sig_spec(spec):
     """Signature granularity: learner type (+ child type and strategy for wrappers), not parameters."""
     k = spec["kind"]
     if k == "Bal":
-        return {"kind": "Bal", "child": {"kind": G.base_kind(spec)}, "nchild": "n", "strategy": spec.get("strategy")}
+        return {"kind": "Bal", "child": _sig_spec(spec["child"]), "nchild": "n", "strategy": spec.get("strategy")}
     if k == "DS":
-        return {"kind": "DS", "child": {"kind": G.base_kind(spec)}}
+        return {"kind": "DS", "child": _sig_spec(spec["child"])}
     return {"kind": k}
 
 
@@ -747,7 +874,7 @@ def run_case(args):
     warnings.filterwarnings("ignore")
     ad = G.adapter(spec)
     rng = random.Random(seed)
-    fragile = spec["kind"] == "Bal" or G.base_kind(spec) == "Int"
+    fragile = G.has_bal(spec) or G.base_kind(spec) == "Int"
     H = drive_history(ad, rng, nops, commit_only=fragile, directed=directed)
     fails, probes, with_pending, known_hits, raising = [], 0, 0, 0, 0
     nhist = {}
@@ -960,16 +1087,22 @@ def run(chk: Check) -> int:
     if bi_exc:
         chk.fail(SIG_F16, f"BalancingLearner([IntegratorLearner, ...]).ask(1) raises {G.short(bi_exc)}",
                  {"spec": {"kind": "Bal", "child": {"kind": "Int"}, "nchild": 2, "strategy": "cycle"}, "ops": [], "n": 1, "smoke": "balint"})
-    specs = all_specs(l2d_ok=not l2d_exc, bal_int_ok=not bi_exc) + raising_specs()
+    flat = all_specs(l2d_ok=not l2d_exc, bal_int_ok=not bi_exc) + raising_specs()
+    nested = nested_specs(l2d_ok=not l2d_exc)
+    specs = flat + nested
     per = 8 if chk.quick else 40
+    per_nested = 4 if chk.quick else 20     # wrappers inside wrappers: fewer histories per configuration, same probing
     nops = 16 if chk.quick else 40
     stride = 1 if chk.quick else 2
     jobs = []
     corpus = sorted((chk.work.parents[1] / "corpus" / "C09").glob("*.json"))
     for si, spec in enumerate(specs):
-        for c in range(per):
+        for c in range(per if si < len(flat) else per_nested):
             seed = chk.rng("case", si, c).randrange(1 << 30)
             jobs.append((spec, seed, nops, stride, c % 3 == 2))
+    # long cases first (the pool hands out one case at a time): nested LearnerND / Learner2D configurations dominate
+    order = sorted(range(len(jobs)), key=lambda j: (-(1 + G.wrapper_depth(jobs[j][0])) * (G.base_kind(jobs[j][0]) in ("LND", "L2D")), j))
+    jobs = [jobs[j] for j in order]
     results = []
     with cf.ProcessPoolExecutor(max_workers=NPROC) as ex:
         for r in ex.map(run_case, jobs, chunksize=1):
@@ -1012,14 +1145,19 @@ def run(chk: Check) -> int:
                                              for s, f in shrunk.items()}
     chk.extra["tentative_asks_that_raised_half_way_configs"] = sum(r.get("raising", 0) for r in results)
     chk.extra.update({"twin_experiments_per_learner_type": per_type, "request_size_histogram": dict(sorted(nhist.items())),
-                      "op_histogram": kinds, "configurations": len(specs), "exhaustive": False,
+                      "op_histogram": kinds, "configurations": len(specs), "nested_wrapper_configurations": len(nested),
+                      "nested_wrapper_histories": sum(1 for r in results if G.wrapper_depth(r["spec"]) >= 2),
+                      "nested_wrapper_probes_with_pending": sum(r["with_pending"] for r in results if G.wrapper_depth(r["spec"]) >= 2),
+                      "exhaustive": False,
                       "learner2d_runs_here": not l2d_exc, "balancing_over_integrator_can_ask": not bi_exc})
     chk.log(f"twin oracle: {sum(r.get('raising', 0) for r in results)} probed tentative asks raised (configurations that fail half-way)")
     chk.log(f"twin oracle: {len(results)} histories, {sum(r['probes'] for r in results)} probed states, "
             f"{len(chk.failures)} failures ({len({f['signature'] for f in chk.failures})} signatures)")
     return chk.finish(
         rule="one case = one history driven on a real learner (13 base configurations of the 7 learner types; BalancingLearner over "
-             "2-3 children of each type x 4 strategies; DataSaver over each type); at EVERY prefix of the history a twin experiment "
+             "2-3 children of each type x 4 strategies; DataSaver over each type; NESTED wrappers: BalancingLearner over DataSaver[X] x 4 "
+             "strategies, DataSaver[BalancingLearner[X]], BalancingLearner over BalancingLearners, three levels -- the snapshot also "
+             "reads data / pending points / losses from every inner learner object); at EVERY prefix of the history a twin experiment "
              "with n in 0..12 (twins by replay); non-trivial = the history reaches states with pending points and has > 3 probed states; "
              "distinct by (configuration, op list); BalancingLearner histories switch the strategy mid-run; domains with different "
              "per-axis ranges; plus model correspondences (Seq, L1D, Avg, Avg1D+pending, Integrator with non-committing asks) on "
